@@ -543,7 +543,7 @@ pub fn run_c25(args: &Args) {
         "C25",
         "modelcheck c25",
         args,
-        "random DAG / control-flow models (deterministic operators only): histories of 4-8 runs with varying input sets, requested outputs and owned/borrowed inputs, ending with a repeat of the first request. Checked: the repeat is bit-identical to the first run; two consecutive identical runs are bit-identical; the bytes of every borrowed input's backing storage (including the gaps of stepped views) are unchanged after each run; every initializer read back through run([], [const]) still equals the value in the model file. non-trivial = some operator ran in place or a buffer was recycled through the pool during the history (OpRun / PoolRelease events); distinct by (case, config)",
+        "random DAG / control-flow models (deterministic operators only): histories of 4-8 runs with varying input sets, requested outputs and owned/borrowed inputs, ending with a repeat of the first request. Checked: the repeat is bit-identical to the first run; two consecutive identical runs are bit-identical; the bytes of every borrowed input's backing storage (including the gaps of stepped views) are unchanged after each run; every initializer read back through run([], [const]) still equals the value in the model file; a request that additionally supplies an (altered) intermediate value gives the same outputs after a plain request on the same model as on a freshly loaded model. A separate probe runs large single-operator models (reductions, softmax, normalisation, matmul, pooling over 2^18-2^21 elements) twelve times on the shared thread pool and requires bit-identical outputs. non-trivial = some operator ran in place or a buffer was recycled through the pool during the history (OpRun / PoolRelease events); distinct by (case, config)",
     );
     install_sink();
     let cases = cases_from(args, "dag,cflow");
@@ -627,7 +627,7 @@ pub fn run_c25(args: &Args) {
                     let b = run_simple(&model, &inputs, &c.outputs, None);
                     if let (Ok(a), Ok(b)) = (a, b) {
                         for (x, y) in a.iter().zip(&b) {
-                            if let Some(diff) = compare(x, y, Tol::Exact) {
+                            if let Some(diff) = compare(x, y, Tol::Bits) {
                                 rep.violation(
                                     format!("{}consecutive_runs_differ|{}", sig_head, mismatch_kind(&diff)),
                                     format!("two consecutive identical runs differ for output {}: {}", x.name, diff),
@@ -643,13 +643,68 @@ pub fn run_c25(args: &Args) {
             // Repeat of the first request.
             if let Ok(last) = run_simple(&model, &inputs0, &c.outputs, None) {
                 for (x, y) in first.iter().zip(&last) {
-                    if let Some(diff) = compare(x, y, Tol::Exact) {
+                    if let Some(diff) = compare(x, y, Tol::Bits) {
                         rep.violation(
                             format!("{}history_dependent|{}", sig_head, mismatch_kind(&diff)),
                             format!("repeating the first request after {} other runs gives a different output {}: {}", n_hist, x.name, diff),
                             json!({"case": small_case_json(c), "optimize": optimize}),
                         );
                         break;
+                    }
+                }
+            }
+            take_events();
+            // A request that additionally supplies an intermediate value (owned) must give
+            // the same answer on this model - whose plan cache holds the plan of the plain
+            // request - as on a freshly loaded model.
+            if !optimize && !c.internals.is_empty() {
+                let vname = rng.choose(&c.internals).clone();
+                if let (Some(vid), Ok(fresh)) = (node_id(&model, &vname), load(&c.model, cfg)) {
+                    if let Ok(vals) = run_simple(&model, &inputs0, std::slice::from_ref(&vname), None) {
+                        // A different value than the model would compute itself.
+                        let mut supplied = vals[0].clone();
+                        for b in supplied.data.iter_mut().step_by(if supplied.dtype == "f32" || supplied.dtype == "i32" { 4 } else { 1 }) {
+                            *b ^= 0x10;
+                        }
+                        let request = |m: &Model| -> Result<Vec<TData>, String> {
+                            let vals: Vec<Value> = inputs0.iter().map(|t| t.to_value()).collect();
+                            let mut ins: Vec<(NodeId, ValueOrView)> = Vec::new();
+                            for (t, v) in inputs0.iter().zip(&vals) {
+                                let id = node_id(m, &t.name).ok_or("input not found")?;
+                                ins.push((id, ValueOrView::from(v)));
+                            }
+                            ins.push((node_id(m, &vname).ok_or("value not found")?, ValueOrView::from(supplied.to_value())));
+                            run_prepared(m, ins, &c.outputs, None)
+                        };
+                        let _ = vid;
+                        let want = request(&fresh);
+                        // Prime the cache with the plain request, then ask.
+                        let _ = run_simple(&model, &inputs0, &c.outputs, None);
+                        let got = request(&model);
+                        rep.eval();
+                        rep.count("requests_with_supplied_intermediate");
+                        match (want, got) {
+                            (Ok(w), Ok(g)) => {
+                                for (x, y) in g.iter().zip(&w) {
+                                    if let Some(diff) = compare(x, y, Tol::Bits) {
+                                        rep.violation(
+                                            format!("{}history_dependent_with_supplied_value|{}", sig_head, mismatch_kind(&diff)),
+                                            format!("a run that supplies intermediate value {} gives a different output {} after a plain run on the same model than on a fresh model: {}", vname, x.name, diff),
+                                            json!({"case": small_case_json(c), "optimize": optimize, "supplied": vname}),
+                                        );
+                                        break;
+                                    }
+                                }
+                            }
+                            (Ok(_), Err(e)) => {
+                                rep.violation(
+                                    format!("{}history_dependent_with_supplied_value|error", sig_head),
+                                    format!("a run that supplies intermediate value {} fails after a plain run on the same model but succeeds on a fresh model: {}", vname, e),
+                                    json!({"case": small_case_json(c), "optimize": optimize, "supplied": vname}),
+                                );
+                            }
+                            _ => rep.count("supplied_intermediate_request_refused_on_fresh_model"),
+                        }
                     }
                 }
             }
@@ -682,6 +737,9 @@ pub fn run_c25(args: &Args) {
                 }
             }
         }
+    }
+    if args.replay.is_none() {
+        crate::bigdet::run_big_determinism(&mut rep, args);
     }
     if args.replay.is_some() {
         rep.nontrivial(&0u8);
@@ -762,7 +820,12 @@ pub fn run_c26(args: &Args) {
         for i in 0..inputs.len() {
             muts.push(Mut::MissingInput(i));
             muts.push(Mut::WrongDtype(i));
-            muts.push(Mut::WrongRank(i));
+            // An input declared without a shape has no rank to contradict.
+            if decl[&inputs[i].name].is_array() {
+                muts.push(Mut::WrongRank(i));
+            } else {
+                rep.count("inputs_declared_without_shape");
+            }
             let has_fixed = decl[&inputs[i].name].as_array().map(|a| a.iter().any(|d| d.is_u64())).unwrap_or(false);
             if has_fixed && !inputs[i].shape.is_empty() {
                 muts.push(Mut::WrongFixedDim(i));
